@@ -478,6 +478,11 @@ func (e *envelopeEncryption) loadIntermediateKey(ctx context.Context, meta KeyMe
 		return nil, errors.New("error loading intermediate key from metastore")
 	}
 
+	if ekr.ParentKeyMeta == nil {
+		// a corrupt key record must yield an error, not a nil dereference
+		return nil, errors.New("intermediate key record is missing its parent key meta")
+	}
+
 	sk, err := e.getOrLoadSystemKey(ctx, *ekr.ParentKeyMeta)
 	if err != nil {
 		return nil, err
